@@ -325,7 +325,15 @@ pub fn rand_history(fmt: &str, rng: &mut Rng, input: &[u8], with_seek: bool, len
                 ops.push(Op::Exact(rng.below(3), rng.range(1, 6)));
                 ops.extend([Op::Dump(0), Op::Dump(1), Op::Dump(2), Op::Pos]);
             }
-            14 | 15 => ops.push(Op::Capture(rng.below(4))),
+            14 => ops.push(Op::Capture(rng.below(4))),
+            15 => {
+                if rng.chance(1, 2) {
+                    ops.push(Op::Capture(rng.below(4)));
+                } else {
+                    let j = rng.below(3);
+                    ops.extend([Op::Shrink(j), Op::Dump(j)]);
+                }
+            }
             16 | 17 if with_seek => ops.push(Op::SeekSlot(rng.below(4))),
             18 if with_seek && !index.is_empty() => {
                 let (l, b) = *rng.pick(&index);
@@ -576,7 +584,7 @@ pub fn writer_cases(fmt: &str, rng: &mut Rng, maxlen: usize, nrand: usize, out: 
                 _ => (h.clone(), None),
             };
             match rng.below(9) {
-                0 => out.push(wline("fa_to", 0, [harg(&h), harg(&s), t(), t()])),
+                0 => out.push(wline(if w % 2 == 0 { "fa_to" } else { "fa_seq" }, 0, [harg(&h), harg(&s), t(), t()])),
                 1 => out.push(wline("fa_parts", 0, [harg(&id), opt_arg(&desc), harg(&s), t()])),
                 2 => out.push(wline("fa_wrap", w, [harg(&id), opt_arg(&desc), harg(&s), t()])),
                 3 => out.push(wline("fa_wrapseq", w, [harg(&id), opt_arg(&desc), harg(&s), t()])),
